@@ -636,6 +636,20 @@ package saml
 //@    len(sp.SignatureMethod) > 0 ==> strings.HasPrefix(stored, redirectBase(rv.RawQuery) +
 //@      redirectQuery("", requestStr.String(), relayState) + "&SigAlg=" + url.QueryEscape(sp.SignatureMethod) + "&Signature=")
 
+//@ -- where the SP sends a message: the Location (never the ResponseLocation) of the first IdP endpoint with the asked binding
+//@ contract (*ServiceProvider).GetSSOBindingLocation
+//@ requires[cfg] md: sp.IDPMetadata != nil
+//@ assert@return[C12,C13] #1 (out string) uses singleSignOnService Endpoint location_of_matching_endpoint:
+//@    out == singleSignOnService.Location && singleSignOnService.Binding == binding
+//@ contract (*ServiceProvider).GetSLOBindingLocation
+//@ requires[cfg] md: sp.IDPMetadata != nil
+//@ assert@return[C12,C13] #1 (out string) uses singleLogoutService Endpoint location_of_matching_endpoint:
+//@    out == singleLogoutService.Location && singleLogoutService.Binding == binding
+//@ contract (*ServiceProvider).GetArtifactBindingLocation
+//@ requires[cfg] md: sp.IDPMetadata != nil
+//@ assert@return[C12,C13] #1 (out string) uses artifactResolutionService Endpoint location_of_matching_endpoint:
+//@    out == artifactResolutionService.Location && artifactResolutionService.Binding == binding
+
 //@ -- the convenience wrappers: the message they emit is the one the constructor built for the matching binding location, and
 //@ -- the caller's relay state is handed to the emitter unchanged (each emitter escapes it exactly once itself)
 //@ contract (*ServiceProvider).MakeRedirectAuthenticationRequest
